@@ -100,6 +100,10 @@ func TestVerifReplay(t *testing.T) {
 
 // nativeRun replays cases of one package against the real build.
 func nativeRun(P *Program, pkg string, cases []NativeCase) ([]NativeResult, string, error) {
+	return nativeRunOpt(P, pkg, cases, false)
+}
+
+func nativeRunOpt(P *Program, pkg string, cases []NativeCase, noRetry bool) ([]NativeResult, string, error) {
 	res := make([]NativeResult, len(cases))
 	if len(cases) == 0 {
 		return res, "", nil
@@ -188,6 +192,43 @@ func nativeRun(P *Program, pkg string, cases []NativeCase) ([]NativeResult, stri
 		}
 	}
 	_ = runErr
+	fatal := func(o string) bool {
+		return strings.Contains(o, "stack overflow") || strings.Contains(o, "goroutine stack exceeds") || strings.Contains(o, "out of memory")
+	}
+	if len(cases) == 1 {
+		if res[0].Kind == "missing" && fatal(string(out)) {
+			res[0].Kind, res[0].Detail = "fatal", "stack overflow / out of memory"
+		}
+	} else if !noRetry {
+		// Cases run in order; a fatal error (stack overflow, out of memory) kills
+		// the test binary, so the first unanswered case is the culprit and the
+		// ones after it never ran: rerun the culprit alone and the rest as a batch.
+		for depth := 0; depth < 6; depth++ {
+			first := -1
+			for i := range res {
+				if res[i].Kind == "missing" {
+					first = i
+					break
+				}
+			}
+			if first < 0 {
+				break
+			}
+			r1, _, err := nativeRunOpt(P, pkg, cases[first:first+1], true)
+			if err == nil {
+				res[first] = r1[0]
+				if res[first].Kind == "missing" {
+					res[first].Kind = "crashed"
+				}
+			}
+			if first+1 < len(cases) {
+				r2, _, err := nativeRunOpt(P, pkg, cases[first+1:], true)
+				if err == nil {
+					copy(res[first+1:], r2)
+				}
+			}
+		}
+	}
 	return res, string(out), nil
 }
 
@@ -243,7 +284,7 @@ func reproduced(v Violation, r NativeResult) bool {
 	case "assert":
 		return r.Kind == "assert" && (strings.TrimSpace(r.Detail) == strings.TrimSpace(v.Msg) || strings.HasPrefix(r.Detail, v.Msg+" ["))
 	case "unwind":
-		return r.Kind == "timeout" || r.Kind == "panic"
+		return r.Kind == "timeout" || r.Kind == "panic" || r.Kind == "fatal"
 	case "alloc":
 		return r.Kind == "panic" || r.Kind == "timeout" || r.Kind == "missing"
 	case "sharedwrite", "foreignwrite":
